@@ -89,6 +89,10 @@ class ListProxy(list, ContainerValueMixin):
     def copy(self) -> "ListProxy":
         return ListProxy(self.cfg, self.list_field, self)
 
+    def __copy__(self) -> "ListProxy":
+        # copy.copy() would rebuild the list through extend() and validate the held items again
+        return self.copy()
+
     def __iadd__(self, iterable: Iterable) -> "ListProxy":
         self.extend(iterable)
         return self
